@@ -82,6 +82,10 @@ def one(name, with_tests):
         rc1, out1 = demo()
         meta['demo_with_change'] = {'exit': rc1, 'tail': out1[-300:]}
         if with_tests:
+            # the repository's pytest configuration uses --doctest-modules: every .py under the root is imported
+            for f_ in ('seed_demo.py', 'demo.py'):
+                if os.path.exists(os.path.join(wt, f_)):
+                    os.remove(os.path.join(wt, f_))
             t = sh([PY, '-m', 'pytest', '-q', '-p', 'no:cacheprovider', '--timeout=900', '--continue-on-collection-errors'], env=env, cwd=wt, timeout=5400)
             text = t.stdout + t.stderr
             lines_ = [ln for ln in text.splitlines() if re.search(r'\d+ passed', ln)]
